@@ -93,9 +93,9 @@ theorem guard_is_the_memoised_verdict (R n : Nat) (w : RedoModel.Deps.World) (c 
     (hs : f ∉ seen) (hf : (RedoModel.Deps.getRec w R f).failed = none)
     (hc : (RedoModel.Deps.getRec w R f).changed = some ch) (hle : ch ≤ mx)
     (hck : RedoModel.Deps.isCheckedR (RedoModel.Deps.getRec w R f) R = true) :
-    RedoModel.Deps.isDirty false R (n + 1) w c f mx seen = (.clean, w, c) := by
+    RedoModel.Deps.isDirty false R (n + 1) w c f mx seen none = (.clean, w, c) := by
   have : ¬ ch > mx := by omega
-  simp (config := { zeta := true, zetaHave := true }) only [RedoModel.Deps.isDirty, hs, hf, hc, this, hck, if_true, if_false,
+  simp (config := { zeta := true, zetaHave := true }) only [RedoModel.Deps.isDirty, Option.getD_none, hs, hf, hc, this, hck, if_true, if_false,
     Option.isSome_none, Bool.false_eq_true]
 
 end C07
